@@ -93,6 +93,8 @@ def do(op, a):
         return with_sid(a[0], f)
     if op == 'copy':
         return with_sid(a[0], lambda x: out(lambda: t_sid(x.copy())))
+    if op == 'eval_repr':
+        return with_sid(a[0], lambda x: out(lambda: t_sid(eval(repr(x)))))
     if op == 'get_as':
         return with_sid(a[0], lambda x: out(lambda: t_sid(x.get_as(a[1]))))
     if op == 'parent':
